@@ -107,6 +107,15 @@ case("random-allow-invalid", "C13", I, "        return cls.from_bban(bban.countr
 case("random-pinned-truncated", "C13", B, "                if key not in values:\n                    components[key] = value[: ranges[key].length]",
      "                components[key] = value[: ranges[key].length]", V, "R13-pinned")
 case("random-negated-class", "C13", I, '"c": r"[A-Za-z0-9]"', '"c": r"[^\\W_]"', V, "R13-regex")
+case("random-nonconforming-returned", "C13", B, '                if result.isascii() and spec["regex"].match(result):\n                    return result', "                return result", V, "nonconforming")
+case("random-unicode-digit-pin-returned", "C13", B, '                if result.isascii() and spec["regex"].match(result):', '                if spec["regex"].match(result):', V, "nonconforming")
+case("random-fallback-ternary", "C13", B, "        if random is None:\n            random = Random()  # noqa: S311", "        random = Random() if random is None else random  # noqa: S311", S)
+case("random-generator-not-passed", "C13", I, "bban = BBAN.random(country_code, random=random, use_registry=use_registry, **values)", "bban = BBAN.random(country_code, use_registry=use_registry, **values)", V, "foreign-draw")
+case("random-while-retry", "C13,C09", B, "        for _ in range(100):\n            bban = rstr.xeger", "        attempts = 0\n        while attempts < 100:\n            attempts += 1\n            bban = rstr.xeger", S,
+     more=[{"file": B, "old": "            except exceptions.SchwiftyException:\n                pass\n        else:\n            raise exceptions.GenerateRandomOverflowError", "new": "            except exceptions.SchwiftyException:\n                pass\n        raise exceptions.GenerateRandomOverflowError"}])
+case("index-build-in-helper", "C12,C14,C15,C17", B, 'registry.build_index("bank", "country", key="country_code", accumulate=True)',
+     'def _build_country_index() -> None:\n    registry.build_index("bank", "country", key="country_code", accumulate=True)\n\n\n_build_country_index()', S)
+case("index-build-dropped", "C12,C14", B, 'registry.build_index("bank", "country", key="country_code", accumulate=True)', 'pass', V)
 # ---- C14 / C15 -----------------------------------------------------------------------------------------------
 case("numerify-cache", "C14,C15", CK, "def numerify(value: str) -> int:\n    try:",
      "_cache: dict = {}\n\n\ndef numerify(value: str) -> int:\n    if value in _cache:\n        return _cache[value]\n    _cache[value] = 0\n    try:", V, "_cache")
